@@ -6,9 +6,14 @@ PID = "C09"
 
 def check(tier, seed):
     return G.generic_check(PID, "proof", tier, seed, coq=True,
-        rule="obligations: theorems of coq/properties/C09.v (AttacksImpl over the bitboard view = Rules spec, for every legal position, square, colour, pseudo-legal move); correspondence: real IsAttacked maps, AttacksTo, HasCheck, GivesCheck, IsLegalMove/WasLegalMove evaluated by the bitboard-level Coq model inside Coq (c09-cases); " + RULE + "; compared here: HasCheck, IsAttacked for all 64 squares x both colours (with recover(): a panic is a violation), AttacksTo on king/ep/random squares, GivesCheck, IsLegalMove and WasLegalMove for every pseudo-legal move, against the spec incl. the two en-passant conventions",
+        rule="obligations: theorems of coq/properties/C09.v (AttacksImpl over the bitboard view = Rules spec, for every legal position, square, colour, pseudo-legal move); correspondence: real IsAttacked maps, AttacksTo, HasCheck, GivesCheck, IsLegalMove/WasLegalMove evaluated by the bitboard-level Coq model inside Coq (c09-cases); the cached HasCheck answer (hasCheckFlag saved and restored through the undo history) is part of the PosImpl operation-sequence correspondence (pos-cases) and is compared with IsAttacked at every level of nested do/undo/null excursions (check_cache_monitor); " + RULE + "; compared here: HasCheck, IsAttacked for all 64 squares x both colours (with recover(): a panic is a violation), AttacksTo on king/ep/random squares, GivesCheck, IsLegalMove and WasLegalMove for every pseudo-legal move, against the spec incl. the two en-passant conventions",
         streams=[dict(name="impl_model_vs_engine", kind="coqcases", shards=lambda t: 4 if t == "quick" else 16,
                       args=lambda t, s, sh, path: ["c09-cases", 25 if t == "quick" else 150, s * 1000 + 300 + sh, path], coq_timeout=3000),
+                 dict(name="check_cache_monitor", kind="monitor", shards=lambda t: 4 if t == "quick" else 8,
+                      args=lambda t, s, sh, path: ["pos-monitor", 500 if t == "quick" else 8000, s * 1000 + 900 + sh, 3 if t == "quick" else 5],
+                      violation_kinds=["check-cache-stale"]),
+                 dict(name="position_model_vs_engine", kind="coqprint", shards=lambda t: 2 if t == "quick" else 8,
+                      args=lambda t, s, sh, path: ["pos-cases", 12 if t == "quick" else 60, s * 1000 + 950 + sh, path], coq_timeout=3000),
                  pos_stream("predicates_vs_spec", ["in-check", "is-attacked", "gives-check", "legality-pre", "legality-post", "attackers"], violation_kinds=["is-attacked-panic"])])
 
 
